@@ -2,7 +2,9 @@
 """tools/seed.py confirm <worktree> <name>
 Confirms a sub-agent's seeded change in its scratch worktree and stores it as seeded/<name>/:
   demo passes on the clean tree, fails with the patch; the unedited baseline suite passes with the patch.
-tools/seed.py try <name> [check ids...]   applies seeded/<name>/patch.diff to /repo, runs the checks, restores."""
+tools/seed.py try <name> [check ids...]   applies seeded/<name>/patch.diff to /repo, runs the checks, restores.
+tools/seed.py sbx <name> [check ids...]   the same in a sandbox copy (/tmp/sbx: copy of /verif + scratch worktree of /repo),
+                                          so that /repo is never touched; tools/seed.py sandbox-rm removes the sandbox."""
 import json, os, shutil, subprocess, sys, time
 ROOT = os.path.dirname(os.path.dirname(os.path.abspath(__file__)))
 
@@ -46,20 +48,39 @@ def confirm(wt, name):
     print("stored", dst)
     return 0
 
-def try_(name, ids):
+SBX_V, SBX_R = "/tmp/sbx/verif", "/tmp/sbx/repo"
+
+def sandbox():
+    """a copy of /verif whose harness and CLI build from a scratch worktree of /repo: seeded changes can be tried
+    without touching /repo (and without overwriting /verif/evidence); removed with `tools/seed.py sandbox-rm`"""
+    os.makedirs("/tmp/sbx", exist_ok=True)
+    if not os.path.exists(SBX_R):
+        rc, out = sh("git -C /repo worktree add --detach %s HEAD" % SBX_R)
+        assert rc == 0, out
+    sh("git -C %s checkout -q --detach %s && git -C %s checkout -- ." % (SBX_R, sh("git -C /repo rev-parse HEAD")[1].strip(), SBX_R))
+    sh("rsync -a --delete --exclude work --exclude harness/target --exclude .git --exclude evidence %s/ %s/" % (ROOT, SBX_V))
+    os.makedirs(SBX_V + "/evidence", exist_ok=True)
+    sh("sed -i 's#path = \"/repo\"#path = \"%s\"#' %s/harness/Cargo.toml" % (SBX_R, SBX_V))
+    sh("sed -i 's#^REPO = \"/repo\"#REPO = \"%s\"#; s#loc.startswith(\"/repo/src/\")#loc.startswith(\"%s/src/\")#' %s/lib/vlib.py" % (SBX_R, SBX_R, SBX_V))
+
+def try_(name, ids, sbx=False):
     dst = os.path.join(ROOT, "seeded", name)
     meta = json.load(open(os.path.join(dst, "meta.json")))
     ids = ids or [meta["property"]]
-    rc, out = sh("git -C /repo status --porcelain --untracked-files=no")
-    assert out.strip() == "", "/repo dirty"
-    rc, out = sh("git -C /repo apply --whitespace=nowarn %s/patch.diff" % dst)
+    repo, root = ("/repo", ROOT)
+    if sbx:
+        sandbox()
+        repo, root = SBX_R, SBX_V
+    rc, out = sh("git -C %s status --porcelain --untracked-files=no" % repo)
+    assert out.strip() == "", repo + " dirty"
+    rc, out = sh("git -C %s apply --whitespace=nowarn %s/patch.diff" % (repo, dst))
     if rc != 0:
         print("does not apply", out); return 1
     res = {}
     try:
         for pid in ids:
             t = time.time()
-            rc, out = sh("./check %s --tier quick" % pid, cwd=ROOT, timeout=7200)
+            rc, out = sh("./check %s --tier quick" % pid, cwd=root, timeout=7200)
             vio = [l for l in out.splitlines() if l.startswith("VIOLATION")]
             sig = ""
             if vio:
@@ -69,7 +90,7 @@ def try_(name, ids):
             print(pid, res[pid])
             if rc == 2: print(out[-1500:])
     finally:
-        sh("git -C /repo checkout -- .")
+        sh("git -C %s checkout -- ." % repo)
     meta.setdefault("checks_run", {}).update(res)
     meta["detected_by"] = sorted(p for p, r in meta["checks_run"].items() if r["exit"] == 1 and r["violations"] > 0)
     json.dump(meta, open(os.path.join(dst, "meta.json"), "w"), indent=1)
@@ -78,4 +99,6 @@ def try_(name, ids):
 if __name__ == "__main__":
     if sys.argv[1] == "confirm":
         sys.exit(confirm(sys.argv[2], sys.argv[3]))
-    sys.exit(try_(sys.argv[2], sys.argv[3:]))
+    if sys.argv[1] == "sandbox-rm":
+        sh("git -C /repo worktree remove --force %s" % SBX_R); sh("rm -rf /tmp/sbx"); sh("git -C /repo worktree prune"); sys.exit(0)
+    sys.exit(try_(sys.argv[2], sys.argv[3:], sbx=(sys.argv[1] == "sbx")))
